@@ -46,6 +46,7 @@ type Prog struct {
 	boundedChecks  []boundedCheck
 	wireCache      map[string]*wirePair
 	wireProps      []string
+	implFuns       map[string]bool
 	wireTypes      map[string]map[string]bool // property -> types (nil: every pair)
 	wireClauses    map[string]map[string]bool // property -> clause labels (nil: all)
 }
